@@ -386,6 +386,22 @@ func c18Enumerate(n int, selfLoops bool, variants bool, yield func(idx int64, c 
 						return
 					}
 					idx++
+					// the SAME missing id referred to by both jobs (in another letter case by the second):
+					// reported at each referring job
+					same := make([][]string, n)
+					copy(same, o)
+					g := c18Ghosts[0]
+					g2 := strings.ToUpper(g)
+					if g2 == g {
+						g2 = strings.ToLower(g)
+					}
+					same[i] = append(append([]string{}, o[i]...), g)
+					same[j] = append([]string{g2}, o[j]...)
+					c = &c18Case{N: n, Needs: same, Desc: fmt.Sprintf("n=%d mask=%#x same dangling id in jobs=%d,%d", n, mask, i, j)}
+					if !yield(idx, c) {
+						return
+					}
+					idx++
 				}
 				// one duplicate (re-cased) of each existing entry appended
 				for k := range o[i] {
@@ -428,7 +444,7 @@ func TestVerifC18(t *testing.T) {
 		r.HarnessError("expected >= 2 map-order sites in rule_job_needs.go, found %d", len(sites))
 		return
 	}
-	r.Extra["rule"] = "every directed graph on <=4 jobs (thorough: + loop-free graphs on 5 jobs) x needs-entry orders x {one dangling, two dangling in one job (3 placements), one dangling in each of two jobs, one duplicate} entry x every iteration order of the rule's nodes map (Engine A map-order choices at the sites of rule_job_needs.go, deviation budget 1, thorough 2 for <=3 jobs); the graphs on <=3 jobs again with ids in unusual spellings, ids containing each other, pairs of ids that concatenate to the same text (plainly, around '-' and '_'), every letter in two cases; class = (cyclic|acyclic|dangling|dup) x printed cycle length; non-trivial = class other than acyclic-clean"
+	r.Extra["rule"] = "every directed graph on <=4 jobs (thorough: + loop-free graphs on 5 jobs) x needs-entry orders x {one dangling, two dangling in one job (3 placements), one dangling in each of two jobs - different ids and the same id -, one duplicate} entry x every iteration order of the rule's nodes map (Engine A map-order choices at the sites of rule_job_needs.go, deviation budget 1, thorough 2 for <=3 jobs); the graphs on <=3 jobs again with ids in unusual spellings, ids containing each other, pairs of ids that concatenate to the same text (plainly, around '-' and '_'), every letter in two cases; class = (cyclic|acyclic|dangling|dup) x printed cycle length; non-trivial = class other than acyclic-clean"
 	r.Extra["assumptions"] = []string{"job ids drawn from 5 fixed spellings with mixed case", "needs graphs with more than 5 jobs are not explored"}
 	maxFull := 4
 	r.Bounds["jobs_all_graphs"] = maxFull
